@@ -23,6 +23,7 @@ impl QxName for Str { open spec fn nm(self) -> Str { self } }
 impl<'a> QxName for &'a Str { open spec fn nm(self) -> Str { *self } }
 pub trait QxVal: Sized { spec fn rv(self) -> real; }
 impl QxVal for f64 { open spec fn rv(self) -> real { f64r(self) } }
+impl QxVal for bool { open spec fn rv(self) -> real { if self { 1real } else { 0real } } }
 impl QxVal for i32 { open spec fn rv(self) -> real { self as real } }
 impl QxVal for i64 { open spec fn rv(self) -> real { self as real } }
 pub uninterp spec fn null_flag(e: Expr, row: Row) -> bool;
